@@ -3,7 +3,10 @@
 Same operands and layers as C01, separate oracle:
   (i)  structural validator on every parse / operator result;
   (ii) x == y  <=>  same cells, for results within a case (both directions);
-  (iii) is_empty() <=> no cell, is_any() <=> all cells.
+  (iii) is_empty() <=> no cell, is_any() <=> all cells;
+  (iv) every operator result is == the canonical object of the set its operands define (this repeats C01's
+       soundness step inside C05: a result that is canonical but denotes another set breaks "equal exactly
+       when they admit the same versions" just as well).
 """
 
 from __future__ import annotations
@@ -84,6 +87,10 @@ def _check_result(acc, kind, case, op, r, exp_mask, full, objs, pts_set, pts, sa
     if r.is_any() != (exp_mask == full):
         return (f"{op}:is_any", exp_mask == full, r.is_any())
     canon = objs[exp_mask]
+    if got != exp_mask:
+        # "two results compare equal exactly when they admit the same versions": the result stands for the
+        # intersection/union/complement of its operands, so it has to be (==) the canonical object of that set
+        return (f"{op}:not-the-canonical-object-of-the-expected-set", f"== {brief(canon)}", describe(r))
     if got == exp_mask and not (r == canon and canon == r):
         return (f"{op}:same-set-but-unequal", f"== {brief(canon)}", describe(r))
     other = objs[exp_mask ^ (1 << salt)]
@@ -224,6 +231,14 @@ def evaluate(kind, case, acc):
             acc.fail(kind, f"{op}:is_empty", case, expected=(m == 0), got={"is_empty": r.is_empty(), "result": describe(r)})
         if r.is_any() != (m == full):
             acc.fail(kind, f"{op}:is_any", case, expected=(m == full), got={"is_any": r.is_any(), "result": describe(r)})
+        try:
+            ok, exp_cells, got_cells, bs2 = specops.step_ok(op, operands, r) if operands else (True, 0, 0, [])
+        except ModelError:
+            ok = True
+        if not ok:
+            # the result stands for the set its operands define: it must be (==) the canonical object of that set
+            canon = build(exp_cells, bs2)
+            acc.fail(kind, f"{op}:not-the-canonical-object-of-the-expected-set", case, expected=f"== {brief(canon)}", got={"result": describe(r), "operands": [describe(o) for o in operands]})
         if len(operands) == 2:
             x, y = operands
             bxy = bounds(x, y)
